@@ -50,7 +50,9 @@ LOOP_TERMINALS = ("loop_while", "loop_cb", "loop_regex", "loop_eval", "loop_gett
                   "loop_cb_in_try")
 REC_TERMINALS = ("rec_self", "rec_cb", "rec_in_try")
 MIRRORED_TERMINALS = ("none", "throw_err", "throw_str", "type_error", "throw_in_try_finally")
-OTHER_TERMINALS = ("none", "none", "throw_err", "throw_str", "type_error", "throw_in_try_finally", "syntax", "host_raise", "sink_fail")
+NESTED_TERMINALS = ("nested_eval_throw", "nested_eval2_throw", "nested_eval_loop", "nested_newfn_throw")
+OTHER_TERMINALS = ("none", "none", "throw_err", "throw_str", "type_error", "throw_in_try_finally", "syntax", "host_raise", "sink_fail",
+                   "nested_eval_throw", "nested_eval2_throw", "nested_newfn_throw")
 
 TERMINAL_SRC = {
     "none": "",
@@ -148,10 +150,30 @@ def expected_observation(model):
     return out
 
 
+def nested_terminal_src(op, idx):
+    """The last effect is an assignment made by nested eval/Function code that acknowledges it and
+    then fails: it was committed before the error, so it must persist."""
+    e = op["effects"][idx]
+    inner = "%s = %d; ack(%d); " % (e["name"], e["v"], idx)
+    t = op["terminal"]
+    if t == "nested_eval_throw":
+        return "eval(%s);" % json.dumps(inner + "throw new Error('in nested eval');")
+    if t == "nested_eval2_throw":
+        return "eval(%s);" % json.dumps("eval(%s);" % json.dumps(inner + "null.x;"))
+    if t == "nested_eval_loop":
+        return "eval(%s);" % json.dumps(inner + "while(true){}")
+    if t == "nested_newfn_throw":
+        return "new Function(%s)();" % json.dumps(inner + "throw 'in Function code';")
+    raise AssertionError(t)
+
+
 def op_src(op, with_terminal=True, upto=None):
     parts = []
     effs = op["effects"] if upto is None else op["effects"][:upto]
     for idx, e in enumerate(effs):
+        if with_terminal and op["terminal"] in NESTED_TERMINALS and idx == len(op["effects"]) - 1:
+            parts.append(nested_terminal_src(op, idx))
+            continue
         parts.append(effect_src(e))
         parts.append("ack(%d);" % idx)
         b = op.get("busy", [])
@@ -159,7 +181,7 @@ def op_src(op, with_terminal=True, upto=None):
             parts.append("for (var bz=0; bz<%d; bz++) {}" % b[idx])
         if with_terminal and op.get("reenter_at") == idx:
             parts.append("re();")
-    if with_terminal:
+    if with_terminal and op["terminal"] not in NESTED_TERMINALS:
         parts.append(TERMINAL_SRC[op["terminal"]])
     parts.append("'ok';")
     return "\n".join(parts)
@@ -209,7 +231,13 @@ def gen_op(rng, ctxs, vals, allow_reenter):
         pool += list(LOOP_TERMINALS) * 2
     if cfg["M"] or cfg["T_work"]:
         pool += list(REC_TERMINALS)
+    if cfg["T_work"]:
+        pool.append("nested_eval_loop")
     term = rng.choice(pool)
+    if term in NESTED_TERMINALS:
+        v = vals[0]
+        vals[0] += 1
+        effects.append({"e": "implicit", "name": rng.choice(NAMES), "v": v})
     op = {"op": "eval", "ctx": c, "effects": effects, "terminal": term, "busy": []}
     if term in LOOP_TERMINALS and rng.random() < 0.5:
         # spread busy work between the effects so that the deadline lands between or inside them
@@ -382,8 +410,10 @@ class Sim:
             "throw_in_try_finally": ("js_error",),
             "syntax": ("js_syntax",), "host_raise": ("host_exc",), "sink_fail": ("host_exc",),
         }
-        if term in LOOP_TERMINALS:
+        if term in LOOP_TERMINALS or term == "nested_eval_loop":
             allowed = ("limit_time",)
+        elif term in NESTED_TERMINALS:
+            allowed = ("js_error",)
         elif term in REC_TERMINALS:
             allowed = ("limit_mem", "limit_time")
         else:
@@ -478,7 +508,7 @@ def execute(case):
         if len(sim.viol) > 20 or any("did not return" in v["detail"] for v in sim.viol):
             break
     res = {"violations": sim.viol[:20], "fired": sim.fired, "work": W.S.work - w0, "elapsed": W.S.work * W.S.tick,
-           "digest": W.digest(), "n_ops": len(case["ops"]), "K": len(case["ctxs"])}
+           "digest": W.digest(), "bdigest": W.bdigest(), "n_ops": len(case["ops"]), "K": len(case["ctxs"])}
     return res
 
 
@@ -578,7 +608,7 @@ RULE = ("case i = a seeded history of 3-9 (thorough: 3-25) operations over K in 
         "bounded-busy and behavioural probes, 20%% of the evals with an operation nested in a host callable (re-entrant). After "
         "every step every context is observed and compared with a dictionary model and a fault-free twin. Non-trivial = at "
         "least one terminal fault fired; distinct = distinct (limits set, op kinds, contexts, terminals, effect kinds) shapes."
-        % (len(TERMINAL_SRC) - 1))
+        % (len(TERMINAL_SRC) - 1 + len(NESTED_TERMINALS)))
 
 ASSUMPTIONS = [
     "effects are acknowledged through a host callable; the effect in flight when a fault lands may be present or absent (old or new value, nothing else)",
